@@ -92,8 +92,8 @@ type Variant struct {
 	// the check sets these after the first decode told it which operands the opcode has.
 	NoSrc1, NoSrc2          bool // VOP3
 	NoData0, NoData1, NoDst bool // DS, FLAT
-	VCCData  bool // VCC is read as uniform data in this variant: it is NOT permuted with the lanes
-	Src2Mask bool // variant only meaningful for opcodes whose SRC2 is a lane mask (SRC2 = s[8:9] or VCC)
+	VCCData                 bool // VCC is read as uniform data in this variant: it is NOT permuted with the lanes
+	Src2Mask                bool // variant only meaningful for opcodes whose SRC2 is a lane mask (SRC2 = s[8:9] or VCC)
 }
 
 func v(n int) int { return 256 + n }
